@@ -188,14 +188,18 @@ func Configure(w *wsutil.Writer, c Config) {
 	}
 }
 
-// Twin returns the configuration of a freshly constructed writer whose Size()
-// equals size on the given side, or ok=false if there is none. The caller
-// must still verify Size() equality on the constructed writer.
-func Twin(size int, client bool, op byte, ext int, noFlush bool) (Config, bool) {
+// Twins returns the configurations of freshly constructed writers whose
+// Size() equals size on the given side. Usually there is exactly one; for the
+// few sizes just below a header-reservation threshold (124, 125, 65530..65535)
+// two backing-buffer lengths give the same Size(). prefer, if it is among the
+// candidates' buffer lengths, is put first. The caller must still verify
+// Size() equality on the constructed writer.
+func Twins(size int, client bool, op byte, ext int, noFlush bool, prefer int) []Config {
 	m := 0
 	if client {
 		m = 4
 	}
+	var out []Config
 	// raw = size + reserved header; the reservation is a function of raw.
 	for _, off := range []int{2, 4, 10} {
 		raw := size + off + m
@@ -209,10 +213,15 @@ func Twin(size int, client bool, op byte, ext int, noFlush bool) (Config, bool) 
 			want = 10
 		}
 		if want == off && raw > ws.MinHeaderSize {
-			return Config{Ctor: "bufsize", N: raw, Client: client, Op: op, Ext: ext, NoFlush: noFlush}, true
+			c := Config{Ctor: "bufsize", N: raw, Client: client, Op: op, Ext: ext, NoFlush: noFlush}
+			if raw == prefer {
+				out = append([]Config{c}, out...)
+			} else {
+				out = append(out, c)
+			}
 		}
 	}
-	return Config{}, false
+	return out
 }
 
 // ---------------------------------------------------------------------------
